@@ -594,9 +594,9 @@ def stepCache (st : CacheSt) (tl : Tally) (act : String) (ans : String) : CacheS
             let tl := match it with
               | .new k _ _ _ _ =>
                 let R := policyAdd c.lfu est k (c.internalCost (match it with | .new _ _ cost _ _ => cost | _ => 0)) refills
-                tl.bump (if R.added then (if R.victims.isSome then "admit.evicting" else "admit.room")
-                  else if (c.lfu.costs.get k).isSome then "admit.already_charged"
-                  else if R.victims.isNone then "admit.oversize" else "admit.rejected")
+                tl.bump (if R.added then (if R.victims.isSome then "padd.evicting" else "padd.room")
+                  else if (c.lfu.costs.get k).isSome then "padd.already_charged"
+                  else if R.victims.isNone then "padd.oversize" else "padd.rejected")
               | .delete k cf =>
                 tl.bump (match c.store.items.get k with
                   | some e => if Store.conflictOk cf e then "delete.resident" else "delete.other_conflict"
